@@ -330,6 +330,76 @@ def run(chk):
                        ("siblings reject %s, this overload does not" % missing) if missing else "%d guard(s) agree with the family" % len(g))
     chk.floor("C14-D6.siblings", nfam, 20, "family/role comparisons")
 
+    # ------------------------------------------------------------------ D10 counts that size a buffer vs. what is written
+    chk.rule("C14-D10.counts", "the container overloads size their output with a count accessor (getNumLoaded / getNumNeeded / getNumPoints); on every path on which the raw overload calls "
+                               "the grid's writer, that writer produces exactly as many points as the accessor reports, for every combination of empty / non-empty loaded and needed sets "
+                               "and zero / non-zero outputs")
+    import itertools
+    import sympy as _sp
+    from tsg.peval import ArrayPEval as _APE
+    from tsg.sym import NotClosedForm as _NCF
+    core = {short(f.name): f for f in db.all_functions(["SparseGrids/tsgGridCore.hpp"]) if f.cls == "TasGrid::BaseCanonicalGrid" and short(f.name) in ("getNumLoaded", "getNumNeeded", "getNumPoints")}
+    if len(core) != 3:
+        raise AnalysisBroken("count accessors of BaseCanonicalGrid not found")
+
+    def count_value(name, Pn, Qn, On):
+        def hook(n, ev):
+            if n.get("k") == "CXXMemberCallExpr" and (callee(n) or "").endswith(("::getNumIndexes", "::empty")):
+                o = strip(call_object(n))
+                fld = short(o.get("field") or "") if o is not None and o.get("k") == "MemberExpr" else None
+                v = Pn if fld == "points" else Qn if fld == "needed" else None
+                if v is None:
+                    return None
+                return _sp.Integer(v) if (callee(n) or "").endswith("::getNumIndexes") else (_sp.true if v == 0 else _sp.false)
+            if n.get("k") == "MemberExpr" and short(n.get("field") or "") == "num_outputs":
+                return _sp.Integer(On)
+            return None
+        pe_ = _APE(db, hook=hook)
+        return int(pe_.call(core[name], []))
+    PAIRS_ = (("getLoadedPoints", "getNumLoaded", "points"), ("getNeededPoints", "getNumNeeded", "needed"), ("getPoints", "getNumPoints", "work"))
+    nct = 0
+    for wname, cname, wset in PAIRS_:
+        for f in fns:
+            if short(f.name) != wname or len(f.params()) != 1 or "*" not in f.params()[0]["t"]:
+                continue
+            bc = [c for c in f.calls(into_lambda=False) if (callee(c) or "").endswith("BaseCanonicalGrid::" + wname) or ((callee_node(c) or {}).get("virt") and short(callee(c) or "") == wname)]
+            if not bc:
+                continue
+            nct += 1
+            chk.saw(f)
+            bad = []
+            for Pn, Qn, On in itertools.product((0, 5), (0, 3), (0, 2)):
+                if On == 0 and Qn != 0:
+                    continue            # grids without outputs have no needed points (makeGrid moves them to points)
+                # is the writer reached for this combination?  evaluate the dominating conditions
+                reached = True
+                for e, tr in cond_edges_dominating(f, bc[0]):
+                    def hook2(n, ev, Pn=Pn, Qn=Qn, On=On):
+                        if n.get("k") == "CXXMemberCallExpr" and short(callee(n) or "") in core:
+                            return _sp.Integer(count_value(short(callee(n)), Pn, Qn, On))
+                        return None
+                    try:
+                        v = _APE(db, hook=hook2).expr(e, {}, f, 0)
+                        tv = True if v is _sp.true else False if v is _sp.false else None
+                    except (_NCF, Exception):
+                        tv = None
+                    if tv is not None and tv != tr:
+                        reached = False
+                if not reached:
+                    continue
+                written = Pn if wset == "points" else Qn if wset == "needed" else (Qn if Pn == 0 else Pn)
+                k = count_value(cname, Pn, Qn, On)
+                if k != written:
+                    bad.append("loaded %d, needed %d, outputs %d: %s() = %d but %s writes %d points" % (Pn, Qn, On, cname, k, wname, written))
+            chk.ob("C14-D10.counts", f.key + f.sig, "%s sized by %s" % (wname, cname), not bad, f.loc(bc[0]), "; ".join(bad[:2]), "equal on every path that reaches the writer")
+    chk.floor("C14-D10.counts", nct, 3, "raw point getters of the API layer")
+    # which set each grid-level writer walks (the table above is checked, not assumed)
+    for g in [x for fs_ in db.load_all().values() for x in fs_ if (x.cls or "").startswith("TasGrid::Grid") and short(x.name) in ("getLoadedPoints", "getNeededPoints") and len(x.params()) == 1 and not x.d.get("islambda")]:
+        used = {short(q["field"]) for q in g.walk() if q.get("k") == "MemberExpr" and short(q.get("field") or "") in ("points", "needed")}
+        want = {"points"} if short(g.name) == "getLoadedPoints" else {"needed"}
+        chk.saw(g)
+        chk.ob("C14-D10.counts", g.key + g.sig, "walks the %s set" % next(iter(want)), used == want or (not used and any(short(callee(c) or "") in ("getLoadedPoints", "getNeededPoints", "getPoints") for c in g.calls())), g.where, "references %s" % sorted(used))
+
     # ------------------------------------------------------------------ D9 stream primitives
     chk.rule("C14-D9.stream", "every stream-reading primitive of the I/O layer (readNumber, readVector, readFlag and their instantiations) tests the state of the stream after its last "
                               "extraction on every path and throws std::runtime_error when it failed: a truncated file can then never feed unread memory to the grid readers")
